@@ -130,6 +130,37 @@ def f3(tier):
     return cases
 
 
+def f3p(tier):
+    """several iterators in lock step: every ordered selection of 2..3 iterators of different kinds (counted range, list,
+    second range, `while` with a side-effecting condition), each `for` with and without a filter, lengths equal and unequal"""
+    odd = lambda v: B('=', B('rem', V(v), L(2)), L(1))
+    I = [('for', 'i', ('range', L(1), L(6)), None), ('for', 'i', ('range', L(1), L(6)), odd('i')), ('for', 'i', ('range', L(1), L(6)), B('>', V('i'), L(2))),
+         ('for', 'i', ('range', L(1), L(3)), None), ('for', 'i', ('range', L(1), L(3)), odd('i'))]
+    X = [('for', 'x', ('list', V('lx')), None), ('for', 'x', ('list', V('lx')), odd('x')), ('for', 'x', ('list', V('lx')), B('=', B('rem', V('x'), L(2)), L(0))),
+         ('for', 'x', ('list', V('ls')), None), ('for', 'x', ('list', V('ls')), odd('x'))]
+    Y = [('for', 'y', ('range', L(100), L(103)), None), ('for', 'y', ('range', L(100), L(109)), B('=', B('rem', V('y'), L(3)), L(0)))]
+    W = [('while', B('<', ('call', 'tk', []), L(5))), ('while', B('<', ('call', 'tk', []), L(9)))]
+    kinds = {'I': I, 'X': X, 'Y': Y, 'W': W}
+    tk = ('fn', 'tk', [], 'I', [('assign', 'c', B('+', V('c'), L(1))), ('value', V('c'))])
+    C = []
+    for n in (2, 3):
+        for sel in itertools.permutations('IXYW', n):
+            for its in itertools.product(*[kinds[k] for k in sel]):
+                if tier == 'quick' and n == 3:
+                    # quick: triples with exactly one filtered `for`, and that one not written first
+                    flt = [j for j, i in enumerate(its) if i[0] == 'for' and i[3] is not None]
+                    if len(flt) != 1 or flt[0] == 0:
+                        continue
+                val = L(0)
+                for v, m in (('i', 10000), ('x', 100), ('y', 1)):
+                    if any(i[0] == 'for' and i[1] == v for i in its):
+                        val = B('+', val, B('*', V(v), L(m)))
+                body = [('decl', 'c', 'I', L(0)), tk, ('decl', 'lx', 'LI', ('list', [L(v) for v in range(10, 16)])), ('decl', 'ls', 'LI', ('list', [L(v) for v in range(10, 13)])),
+                        ('forn', list(its), [P(val)]), P(V('c'))]
+                C.append(('MI', body))
+    return C
+
+
 # ------------------------------------------------------------------------------------------ F4 generators
 def f4(tier):
     cases = []
@@ -790,3 +821,4 @@ c@K@(): () == {
 
 
 FAMILIES.update({'F6M': f6m})
+FAMILIES.update({'F3P': f3p})
